@@ -666,6 +666,42 @@ func (e *env) implDangling() []string {
 	return out
 }
 
+// implHeldResolvable lists the ADD operations the implementation still holds although everything they
+// reference is installed (read from the implementation's own state through the hooks, no model involved).
+func (e *env) implHeldResolvable() []string {
+	snap := e.implSnapshot()
+	if snap == nil {
+		return nil
+	}
+	has := func(k Key) bool { _, ok := snap[k]; return ok }
+	var out []string
+	for _, p := range e.srv.VerifRIB().VerifPending() {
+		if p.Op.GetOp() != spb.AFTOperation_ADD {
+			continue // a held REPLACE may be doomed (its target deleted): it fails when retried, it does not resolve
+		}
+		ok := false
+		switch t := p.Op.Entry.(type) {
+		case *spb.AFTOperation_NextHopGroup:
+			ok = len(t.NextHopGroup.GetNextHopGroup().GetNextHop()) > 0
+			for _, nh := range t.NextHopGroup.GetNextHopGroup().GetNextHop() {
+				if !has(Key{NI: p.NI, Kind: KNH, ID: nh.GetIndex()}) {
+					ok = false
+				}
+			}
+		case *spb.AFTOperation_Ipv4:
+			ok = has(Key{NI: orStr(t.Ipv4.GetIpv4Entry().GetNextHopGroupNetworkInstance().GetValue(), p.NI), Kind: KNHG, ID: t.Ipv4.GetIpv4Entry().GetNextHopGroup().GetValue()})
+		case *spb.AFTOperation_Ipv6:
+			ok = has(Key{NI: orStr(t.Ipv6.GetIpv6Entry().GetNextHopGroupNetworkInstance().GetValue(), p.NI), Kind: KNHG, ID: t.Ipv6.GetIpv6Entry().GetNextHopGroup().GetValue()})
+		case *spb.AFTOperation_Mpls:
+			ok = has(Key{NI: orStr(t.Mpls.GetLabelEntry().GetNextHopGroupNetworkInstance().GetValue(), p.NI), Kind: KNHG, ID: t.Mpls.GetLabelEntry().GetNextHopGroup().GetValue()})
+		}
+		if ok {
+			out = append(out, fmt.Sprintf("%s in %s", describeOp(p.Op), p.NI))
+		}
+	}
+	return out
+}
+
 func diffIDs(a, b []uint64) []uint64 {
 	in := map[uint64]bool{}
 	for _, x := range b {
